@@ -976,3 +976,16 @@ def dispatch_then_block(n_events=1):
     main = [['root', 'A', 'X', 'X0'], ['idle', 'A'], ['sleep', 't1'], ['root', 'A', 'P', 'P1'], ['block', 'b']] + \
            ([['root', 'A', 'P', 'P2']] if n_events > 1 else []) + [['idle', 'A'], ['obs_all', 'end']]
     return dict(buses=['A'], reals={'d1': ['0', '1/10'], 't1': ['0', '1/4'], 'b': ['0', '3/20']}, handlers=handlers, main=main, horizon=6)
+
+
+
+def expects_then_late_handler():
+    """request/response correlation: two overlapping expect() calls on the same event type (the second starts at t1), a permanent
+    handler is registered while both wait, the awaited events arrive so that the first expect() finishes first; later events of
+    that type must still reach every permanent handler exactly once."""
+    handlers = [['A', 'P', 'hP', [['ret', 'p']]]]
+    main = [['sleep', 't2'], ['register', 'A', 'P', 'hAudit'], ['sleep', '1/10'], ['root', 'A', 'P', 'P1'], ['await', 'P1'], ['sleep', '1/10'],
+            ['root', 'A', 'P', 'P2'], ['await', 'P2'], ['sleep', '1'], ['root', 'A', 'P', 'P3'], ['await', 'P3'], ['root', 'A', 'P', 'P4'], ['await', 'P4'],
+            ['idle', 'A'], ['obs_all', 'end']]
+    return dict(buses=['A'], reals={'t1': ['0', '1/10'], 't2': ['0', '1/5']}, handlers=handlers, main=main,
+                actors={'e1': [['expect', 'A', 'P', '3/5']], 'e2': [['sleep', 't1'], ['expect', 'A', 'P', '2']]}, horizon=8, settle=1)
